@@ -227,8 +227,20 @@ def run(pid, args):
         "sanitizers": "g++ -O0 ASan+UBSan", "exhaustive": False,
     })
     if len(failures) > max(4, len(usable) // 5):
-        v.violation("compile-rejects", {"property": pid, "broken": "the compiler rejects %d of %d expressions the model types as well-formed" % (len(failures), len(usable)),
-                                        "sample": list(failures.items())[:2]}, no_input=True)
+        msgs = [m for _, m in list(failures.items())[:4]]
+        in_prelude = [m for m in msgs if re.search(r"expr_prelude\.h:\d+:\d+:\s+(required from here|error)", m)]
+        if in_prelude:
+            # the fixed scenarios of the harness (documented, well-typed uses of the library) no longer compile:
+            # that scenario is the failing input
+            v.violation("fixed-scenario-rejected", {"property": pid, "broken": "a fixed scenario of harness/expr_prelude.h (a documented, well-typed use of the library) is rejected by the compiler",
+                                                    "compiler_output": in_prelude[0][-2500:], "source": "harness/expr_prelude.h"})
+        else:
+            by_case = {c.idx: c for c, _ in usable}
+            k0 = sorted(failures)[0]
+            c0 = by_case.get(k0)
+            v.violation("compile-rejects", {"property": pid, "broken": "the compiler rejects %d of %d expressions the model types as well-formed" % (len(failures), len(usable)),
+                                            "cpp": gen_expr.to_cpp(c0.term) if c0 else None, "term": repr(c0.term) if c0 else None,
+                                            "kinds": c0.kinds if c0 else None, "sample": list(failures.items())[:2]}, no_input=(c0 is None))
     v.coverage["fixed_scenarios"] = {"slot_by_reference": sorted(set(FIXED_SEEN))[:3], "expected": FIXED_EXPECTED}
     if pid == "C09" and FIXED_SEEN and any(x != FIXED_EXPECTED for x in FIXED_SEEN):
         v.violation("fixed-slotref", {"property": pid, "broken": "fixed scenario: a slot referred to by std::ref from another slot's functor",
